@@ -1991,11 +1991,21 @@ func (f *formatter) ScalarEncapsedStringBrackets(n *ast.ScalarEncapsedStringBrac
 }
 
 func (f *formatter) ScalarHeredoc(n *ast.ScalarHeredoc) {
-	n.OpenHeredocTkn = f.newToken(token.T_START_HEREDOC, []byte("<<<EOT\n"))
+	// the opening token decides between heredoc and nowdoc and names the
+	// label that ends the body: tokens that came from the source are kept
+	if n.OpenHeredocTkn == nil {
+		n.OpenHeredocTkn = f.newToken(token.T_START_HEREDOC, []byte("<<<EOT\n"))
+	} else {
+		n.OpenHeredocTkn.FreeFloating = f.getFreeFloating()
+	}
 	for _, p := range n.Parts {
 		p.Accept(f)
 	}
-	n.CloseHeredocTkn = f.newToken(token.T_START_HEREDOC, []byte("EOT"))
+	if n.CloseHeredocTkn == nil {
+		n.CloseHeredocTkn = f.newToken(token.T_END_HEREDOC, []byte("EOT"))
+	} else {
+		n.CloseHeredocTkn.FreeFloating = f.getFreeFloating()
+	}
 }
 
 func (f *formatter) ScalarLnumber(n *ast.ScalarLnumber) {
